@@ -1509,7 +1509,8 @@ func UniqueInputFieldNamesRule(context *ValidationContext) *ValidationRuleInstan
 						}
 
 					}
-					return visitor.ActionSkip, nil
+					// keep descending: the field's value may itself be an input object
+					return visitor.ActionNoChange, nil
 				},
 			},
 		},
